@@ -230,7 +230,7 @@ let r_ =
 ; proof { lemma_first_some(pd.statements, *index, offset, tokens@, |s: Reference<Statement>| call_at(s.reference, *index, (offset + s.offset) as usize, tokens@), 0); } r_
 //@end
 
-//~not_decided the callee's declared signature and parameter list shown (Display / format!, symbol table lookup), which procedure contains the cursor (find_map over global declarations in the async handler), the slice `tokens[call_stmt.to_range().shift(offset)]` handed to get_active_param there, hover
+//~not_decided the rendered texts (Display / format!); the handler-level closures are under contract in unit `sighelp`, hover in unit `hover`
 pub proof fn witness_signature() {
     let s: Seq<Token> = Seq::empty();
     assert(sorted_by_start(s));
